@@ -491,14 +491,20 @@ def _circ(a, b):
     return min(d, 12.0 - d)
 
 
-def _mp_near_threshold(mp, RF, EF, w, margin=1e-6):
-    """some raw or chroma distance of a frame pair is within `margin` of the window (log2 rounding could decide it)"""
+def _mp_near_threshold(mp, RF, EF, w, margin=1e-6, cross=True):
+    """some raw or chroma distance between a reference pitch and an estimated pitch is within `margin` of the window (log2 /
+    mod rounding could decide the comparison).  cross=True compares the pitches of ALL frames with each other, which covers
+    whatever frame pairing the resampling produces."""
     if EF is None:
         return True
     rm, em = _mp_midi(mp, RF), _mp_midi(mp, EF)
     if rm is None or em is None:
         return True
-    for fr, fe in zip(rm, em):
+    if cross:
+        pairs = [([a for f in rm for a in f], [b for f in em for b in f])]
+    else:
+        pairs = list(zip(rm, em))
+    for fr, fe in pairs:
         for a in fr:
             for b in fe:
                 if abs(abs(a - b) - w) < margin or abs(_circ(a, b) - w) < margin:
@@ -524,7 +530,7 @@ def _mp_frame_checks(ctx, mp, RF, EF, w, inp):
     """C04 / C05: the per-frame true positive counts are sizes of maximum matchings of the stated (linear / circular) tolerance"""
     np = _np()
     rm, em = _mp_midi(mp, RF), _mp_midi(mp, EF)
-    if rm is None or em is None or len(rm) != len(em) or _mp_near_threshold(mp, RF, EF, w, 1e-9):
+    if rm is None or em is None or len(rm) != len(em) or _mp_near_threshold(mp, RF, EF, w, 1e-9, cross=False):
         return
     A = lambda F: [np.array(f, dtype=float) for f in F]
     tp = call(mp.compute_num_true_positives, A(rm), A(em), window=w)
@@ -563,7 +569,7 @@ def _mp_at_window(ctx, mp, rt, RF, et, EF, w, sc):
     inp = _mp_inp(rt, RF, et, EF, w)
     rel_range(ctx, 'multipitch.metrics', MP_NAMES, sc, inp, nonneg=[n for n in MP_NAMES if 'Error' in n])
     ctx.take(O._scores_relations('multipitch.metrics', inp, sc))
-    if _mp_near_threshold(mp, RF, EF if _mp_same_timebase(rt, et) or _mp_noise_equal(rt, et) else _mp_resampled(mp, rt, et, EF), 0.5 if w is None else w, 1e-9):
+    if _mp_near_threshold(mp, RF, EF, 0.5 if w is None else w, 1e-9):
         return        # a pitch distance within rounding error of the window: the linear and the circular distance may round differently
     for i in (0, 1, 2):
         if sc[i] > sc[i + 7] + EPS:
@@ -754,6 +760,339 @@ def probe_multipitch(ctx, S):
 
 
 # ======================================================================================================================
+# hit-based event metrics: beat.f_measure, onset.f_measure, segment.detection, segment.deviation  (units event_metrics, match_events)
+# ======================================================================================================================
+EV_FN = {'beat': 'beat.f_measure', 'onset': 'onset.f_measure', 'detection': 'segment.detection', 'detection_trim': 'segment.detection'}
+SHIFTS = (1.0, 0.25, 1 / 32., 7 / 32., 45 / 64., 50 / 64., 3 / 64., 16.0, 100.015625)
+
+
+def _ev_call(M, kind, ref, est, w, beta=1.0):
+    """(P, R, F) (P, R None for beat) or None when the call raises"""
+    from harness.oracles import events as O
+    f = O._metric(M, kind)
+    r = call(f, ref, est, w, beta) if kind.startswith('detection') else call(f, ref, est, w)
+    return tuple(r[1]) if r[0] == 'ok' else None
+
+
+def _ev_inp(kind, ref, est, w, beta):
+    d = {'kind': kind, 'ref': [list(x) if isinstance(x, (list, tuple)) else x for x in ref],
+         'est': [list(x) if isinstance(x, (list, tuple)) else x for x in est], 'window': w}
+    if kind.startswith('detection'):
+        d['beta'] = beta
+    return d
+
+
+def _round5_id(vals):
+    np = _np()
+    return all(float(np.round(v, 5)) == v for v in vals)
+
+
+def probe_events(ctx, kind, ref, est, w, beta=1.0):
+    """kind in beat | onset | detection | detection_trim; ref / est: event times or interval rows (floats)"""
+    import mir_eval as M
+    from harness.oracles import events as O
+    fn = EV_FN[kind]
+    if not (w >= 0 and beta > 0):
+        return
+    base = _ev_call(M, kind, ref, est, w, beta)
+    if base is None:
+        return
+    flat = lambda x: [t for r in x for t in (r if isinstance(r, (list, tuple)) else [r])]
+    names = ('precision', 'recall', 'f_measure')
+    ds = O._distances(M, kind, ref, est)
+    wins = ladder(w, (0.0, 0.05, 0.07, 0.5, 3.0), ds)
+    pts = []
+    for x in wins:
+        if ctx.over():
+            return
+        sc = base if x == w else _ev_call(M, kind, ref, est, x, beta)
+        pts.append((x, [v if v is not None else 0.0 for v in sc] if sc is not None else None))
+        if sc is None:
+            continue
+        inp = _ev_inp(kind, ref, est, x, beta)
+        rel_range(ctx, fn, [n for n, v in zip(names, sc) if v is not None], [v for v in sc if v is not None], inp)
+        sw = _ev_call(M, kind, est, ref, x, beta)
+        if sw is not None:
+            if sc[0] is not None and not (close(sc[0], sw[1]) and close(sc[1], sw[0])):
+                ctx.add('C06', fn, 'swapping reference and estimate exchanges precision and recall', inp, {'fwd': list(sc), 'swapped': list(sw)})
+            elif beta == 1.0 and not close(sc[2], sw[2]):
+                ctx.add('C06', fn, 'swapping reference and estimate keeps F (beta = 1)', inp, {'fwd': list(sc), 'swapped': list(sw)})
+    rel_mono(ctx, fn, '', 'window', pts, [n if base[i] is not None else None for i, n in enumerate(names)], _ev_inp(kind, ref, est, None, beta))
+    # beta in a neighbourhood (C01: F stays between P and R, hence in [0, 1], for every beta > 0)
+    if kind.startswith('detection'):
+        for b in ladder(beta, (0.25, 0.5, 0.58, 1.0, 1.7, 2.0)):
+            for x in (w, ds[-1] if ds else w):
+                sc = _ev_call(M, kind, ref, est, x, b)
+                if sc is not None:
+                    rel_range(ctx, fn, names, sc, _ev_inp(kind, ref, est, x, b))
+    # C02: each side against a copy of itself
+    for side in (ref, est):
+        n = O._n_items(M, kind, side)
+        if n == 0:
+            continue
+        cp = [list(r) if isinstance(r, (list, tuple)) else r for r in side]
+        for b in ((beta, 1.0) if kind.startswith('detection') else (1.0,)):
+            sc = _ev_call(M, kind, side, cp, w, b)
+            if sc is not None and any(v is not None and not close(v, 1.0) for v in sc):
+                ctx.add('C02', fn, 'perfect estimate (a copy of the annotation) scores precision = recall = F = 1', _ev_inp(kind, side, cp, w, b), list(sc))
+    # C08: exact shifts (interval times must stay fixed points of the 5-decimal rounding of the boundaries), row order
+    vals = flat(ref) + flat(est)
+    ivl = kind.startswith('detection')
+    for s in SHIFTS:
+        if not exact_add(vals, s) or (ivl and not (_round5_id(vals) and _round5_id([v + s for v in vals]))):
+            continue
+        sh = (lambda x: [[a + s, b + s] for a, b in x]) if ivl else (lambda x: [v + s for v in x])
+        sc = _ev_call(M, kind, sh(ref), sh(est), w, beta)
+        if sc is not None and not allclose([v for v in base if v is not None], [v for v in sc if v is not None]):
+            ctx.add('C08', fn, 'adding the same offset to all times leaves the scores unchanged', dict(_ev_inp(kind, ref, est, w, beta), shift=s),
+                    {'orig': list(base), 'shifted': list(sc)})
+    if ivl:
+        for pr in perms(len(ref), ctx.rng) or [list(range(len(ref)))]:
+            for pe in perms(len(est), ctx.rng) or [list(range(len(est)))]:
+                sc = _ev_call(M, kind, [ref[i] for i in pr], [est[j] for j in pe], w, beta)
+                if sc is not None and not allclose(base, sc):
+                    ctx.add('C08', fn, 'reordering the interval rows leaves the scores unchanged',
+                            dict(_ev_inp(kind, ref, est, w, beta), perm_ref=pr, perm_est=pe), {'orig': list(base), 'permuted': list(sc)})
+
+
+def probe_deviation(ctx, ref, est, trim):
+    import mir_eval as M
+    from harness.oracles import events as O
+    vals = [t for r in ref + est for t in r]
+    pr, pe = list(range(len(ref)))[::-1], list(range(len(est)))[::-1]
+    ctx.take(O.check_deviation(M, ref, est, trim=trim, shift=1.0, perm_ref=pr, perm_est=pe))
+    for s in SHIFTS[1:]:
+        if exact_add(vals, s) and _round5_id(vals) and _round5_id([v + s for v in vals]):
+            ctx.take(O.check_deviation(M, ref, est, trim=trim, shift=s))
+
+
+def probe_match_events(ctx, ref, est, w, wm):
+    """util.match_events on (possibly unsorted) values: C05; the sorted values as onset / beat annotations"""
+    import mir_eval as M
+    from harness.oracles import events as O
+    ctx.take(O.check_match_events(M, ref, est, w))
+    ctx.take(O.check_match_events(M, ref, est, wm, M.util._outer_distance_mod_n))
+    for pr in perms(len(ref), ctx.rng):
+        for pe in perms(len(est), ctx.rng) or [list(range(len(est)))]:
+            ctx.take(O.check_match_events_order(M, ref, est, w, pr, pe))
+    if all(v >= 0 for v in ref + est):
+        for kind in ('onset', 'beat'):
+            probe_events(ctx, kind, sorted(ref), sorted(est), w)
+
+
+# ======================================================================================================================
+# beat  (units beat_q, beat_ig)
+# ======================================================================================================================
+def _beat_valid(l):
+    return all(isinstance(x, (int, float)) and math.isfinite(x) and 0 <= x <= 30000.0 for x in l) and all(a <= b for a, b in zip(l, l[1:]))
+
+
+def _beat_one(ctx, B, ref, est, P):
+    """all relations at one (ref, est) and one parameter setting P"""
+    from harness.oracles import beat as O
+    np = _np()
+    r, e = np.array(ref, dtype=float), np.array(est, dtype=float)
+    inp = {'ref': ref, 'est': est}
+    # goto: binary
+    ctx.take(O.check_goto(B, ref, est, P['gthr'], P['gmu'], P['gsig']) if 0 <= P['gthr'] < 1 else None)
+    # continuity: range and nested levels
+    for ph, pe in ((P['cph'], P['cpe']), (0.175, 0.175)):
+        c = call(B.continuity, r, e, continuity_phase_threshold=ph, continuity_period_threshold=pe)
+        if c[0] != 'ok':
+            continue
+        a, b, cc, d = vec(c[1])
+        ci = dict(inp, continuity_phase_threshold=ph, continuity_period_threshold=pe)
+        rel_range(ctx, 'beat.continuity', ('CMLc', 'CMLt', 'AMLc', 'AMLt'), (a, b, cc, d), ci)
+        if a > cc + EPS or b > d + EPS:
+            ctx.add('C07', 'beat.continuity', 'allowing other metrical levels never lowers the score: CMLc <= AMLc and CMLt <= AMLt', ci, [a, b, cc, d])
+        if a > b + EPS or cc > d + EPS:
+            ctx.add('C07', 'beat.continuity', 'dropping the continuity requirement never lowers the score: CMLc <= CMLt and AMLc <= AMLt', ci, [a, b, cc, d])
+    # cemgil: the existing oracle separates the listed counterexamples ('known:') from violations
+    for sg in (P['csig'], 0.04):
+        m = call(B.cemgil, r, e, cemgil_sigma=sg)
+        if m[0] == 'ok' and ref and est:
+            x, y = vec(m[1])
+            if x > y + EPS:
+                ctx.add('C07', 'beat.cemgil', 'taking the best metrical level never lowers the score: Cemgil <= Cemgil best metric level', dict(inp, cemgil_sigma=sg), [x, y])
+        ctx.take([f for f in (O.check_cemgil(B, ref, est, sg) or []) if 'sum of Gaussians' not in f['relation']] if sg > 0 else None)
+    # p_score
+    if ref and est and max(ref + est) - min(ref + est) <= 120.0 and P['pthr'] > 0:
+        ctx.take(O.check_pscore(B, ref, est, P['pthr']))
+    # information gain
+    ctx.take(O.check_infogain(B, ref, est, 41))
+
+
+def probe_beat(ctx, ref, est, P):
+    from mir_eval import beat as B
+    from harness.oracles import beat as O
+    np = _np()
+    if not (_beat_valid(ref) and _beat_valid(est)):
+        return
+    variants = [(ref, est)]
+    for i in range(len(est)):
+        if len(variants) < 14:
+            variants.append((ref, est[:i] + est[i + 1:]))
+    for i in range(len(ref)):
+        if len(variants) < 26:
+            variants.append((ref[:i] + ref[i + 1:], est))
+    for (r, e) in variants:
+        if ctx.over():
+            return
+        _beat_one(ctx, B, r, e, P)
+    # f_measure as a hit-based metric (window ladder, swap, self, shift)
+    probe_events(ctx, 'beat', ref, est, 0.07)
+    # C02: each side against itself
+    for side in (ref, est):
+        ctx.take(O.check_self(B, side))
+        ctx.take(O.check_infogain(B, side, list(side), 41))
+    # C08: exact shifts, with the parameters of the case and with the defaults; p_score also over a ladder of thresholds
+    vals = ref + est
+    fns = [('goto', B.goto, {'goto_threshold': P['gthr'], 'goto_mu': P['gmu'], 'goto_sigma': P['gsig']}), ('goto', B.goto, {}),
+           ('continuity', B.continuity, {'continuity_phase_threshold': P['cph'], 'continuity_period_threshold': P['cpe']}), ('continuity', B.continuity, {}),
+           ('cemgil', B.cemgil, {'cemgil_sigma': P['csig']}), ('information_gain', B.information_gain, {}), ('f_measure', B.f_measure, {})]
+    if ref and est and max(vals) - min(vals) <= 120.0:
+        for thr in ladder(P['pthr'], (0.1, 0.2, 0.25, 0.5, 0.75, 1.0), lo=1e-6):
+            fns.append(('p_score', B.p_score, {'p_score_threshold': thr}))
+    r0, e0 = np.array(ref, dtype=float), np.array(est, dtype=float)
+    bases = [call(fn, r0, e0, **kw) for _, fn, kw in fns]
+    for s in SHIFTS:
+        if ctx.over():
+            return
+        if not exact_add(vals, s) or (vals and max(vals) + s > 30000.0):
+            continue
+        r1, e1 = r0 + s, e0 + s
+        for (name, fn, kw), a in zip(fns, bases):
+            if a[0] != 'ok':
+                continue
+            b = call(fn, r1, e1, **kw)
+            if b[0] == 'ok' and not allclose(vec(a[1]), vec(b[1])):
+                ctx.add('C08', 'beat.' + name, 'adding the same offset to all times leaves the score unchanged', {'ref': ref, 'est': est, 'shift': s, 'parameters': kw},
+                        {'orig': vec(a[1]), 'shifted': vec(b[1])})
+
+
+# ======================================================================================================================
+# tempo  (unit tempo_detection)
+# ======================================================================================================================
+def probe_tempo(ctx, ref, w, est, tol):
+    from mir_eval import tempo as T
+    np = _np()
+    if not (len(ref) == 2 and len(est) == 2 and all(isinstance(x, (int, float)) and math.isfinite(x) for x in list(ref) + list(est) + [w, tol])):
+        return
+    if not (0 <= w <= 1 and tol >= 0):
+        return
+    r, e = np.array(ref, dtype=float), np.array(est, dtype=float)
+    if call(T.detection, r, w, e, tol)[0] != 'ok':
+        return
+
+    def det(rr, ww, ee, tt):
+        o = call(T.detection, np.array(rr, dtype=float), ww, np.array(ee, dtype=float), tt)
+        return (float(o[1][0]), o[1][1], o[1][2]) if o[0] == 'ok' else None
+    crit = [abs(a - b) / a for a in ref for b in est if a > 0]
+    tols = ladder(tol, (0.0, 0.04, 0.08, 0.16, 0.5, 1.0), crit, lo=0.0)
+    for ww in sorted(set([w, 0.0, 0.25, 0.5, 0.75, 1.0])):
+        prev = None
+        for tt in tols:
+            v = det(ref, ww, est, tt)
+            if v is None:
+                prev = None
+                continue
+            p, one, both = v
+            inp = {'reference_tempi': list(ref), 'reference_weight': ww, 'estimated_tempi': list(est), 'tol': tt}
+            rel_range(ctx, 'tempo.detection', ('P-score',), (p,), inp)
+            if not (isinstance(one, (bool, np.bool_)) and isinstance(both, (bool, np.bool_))):
+                ctx.add('C01', 'tempo.detection', 'One-correct and Both-correct are binary (exactly 0 or 1)', inp, [repr(one), repr(both)])
+            if both and not one:
+                ctx.add('C07', 'tempo.detection', 'both tempi correct implies one tempo correct', inp, [p, bool(one), bool(both)])
+            v2 = det(ref, ww, est[::-1], tt)
+            if v2 is not None and not (close(v2[0], p) and bool(v2[1]) == bool(one) and bool(v2[2]) == bool(both)):
+                ctx.add('C08', 'tempo.detection', 'permuting the two estimated tempi leaves the scores unchanged', inp, {'orig': [p, bool(one), bool(both)], 'permuted': [v2[0], bool(v2[1]), bool(v2[2])]})
+            if prev is not None and (p < prev[1][0] - EPS or bool(one) < bool(prev[1][1]) or bool(both) < bool(prev[1][2])):
+                ctx.add('C07', 'tempo.detection', 'widening tol never lowers the P-score or the hit flags', dict(inp, tol=[prev[0], tt]),
+                        {'tighter': [prev[1][0], bool(prev[1][1]), bool(prev[1][2])], 'looser': [p, bool(one), bool(both)]})
+            prev = (tt, v)
+    # C02: the reference as its own estimate (a zero reference tempo is a listed finding and is not probed)
+    if all(x > 0 for x in ref):
+        v = det(ref, w, list(ref), tol)
+        if v is not None and not (close(v[0], 1.0) and v[1] and v[2]):
+            ctx.add('C02', 'tempo.detection', 'perfect estimate (est = ref) scores P-score 1, one correct, both correct',
+                    {'reference_tempi': list(ref), 'reference_weight': w, 'tol': tol}, [v[0], bool(v[1]), bool(v[2])])
+
+
+# ======================================================================================================================
+# chord comparison rules  (unit chord_cmp)  and key  (unit key_score)
+# ======================================================================================================================
+CHORD_RULES = ['thirds', 'thirds_inv', 'triads', 'triads_inv', 'tetrads', 'tetrads_inv', 'root', 'mirex', 'majmin', 'majmin_inv', 'sevenths', 'sevenths_inv']
+
+
+def probe_chord_pair(ctx, r, e):
+    from mir_eval import chord as C
+    from harness.oracles import chord as OC, key_chordscore as OK
+    np = _np()
+    if not (isinstance(r, str) and isinstance(e, str)):
+        return
+    if call(C.encode, r)[0] != 'ok' or call(C.encode, e)[0] != 'ok':
+        return
+    # C02: a label (a one-interval annotation) against a copy of itself
+    for x in (r, e):
+        iv = np.array([[0.0, 1.0]])
+        ev = call(C.evaluate, iv, [x], iv.copy(), [str(x)])
+        for name in CHORD_RULES:
+            c = call(lambda: float(getattr(C, name)([x], [str(x)])[0]))
+            if c[0] != 'ok':
+                continue
+            if c[1] == 0.0:
+                ctx.add('C02', 'chord.' + name, 'perfect estimate: comparing a label with a copy of itself gives 1 (or -1 when it lies outside the vocabulary of the rule)', [x, x], c[1])
+            if ev[0] == 'ok' and name in ev[1]:
+                want = 1.0 if c[1] == 1.0 else 0.0
+                if c[1] in (1.0, -1.0) and not close(float(ev[1][name]), want):
+                    ctx.add('C02', 'chord.evaluate', 'perfect estimate: %s of an annotation against a copy of itself is 1 (0 by convention when nothing is comparable)' % name,
+                            {'intervals': [[0.0, 1.0]], 'labels': [x]}, float(ev[1][name]))
+        if ev[0] == 'ok':
+            for name in ('underseg', 'overseg', 'seg'):
+                if name in ev[1] and not close(float(ev[1][name]), 1.0):
+                    ctx.add('C02', 'chord.evaluate', 'perfect estimate: %s of an annotation against a copy of itself is 1' % name,
+                            {'intervals': [[0.0, 1.0]], 'labels': [x]}, float(ev[1][name]))
+    # C11 at the point (existing oracle), C09: joint transposition / respelling
+    ctx.take(OC.check_pair(C, r, e, others=['N', 'C:maj', 'G:min7/b7']))
+    for k in range(12):
+        for pick in (0, 1):
+            ctx.take(OK.check_transpose_pair(C, r, e, k, pick, pick + 1))
+
+
+def probe_key_pair(ctx, r, e):
+    from mir_eval import key as K
+    if not (isinstance(r, str) and isinstance(e, str)) or call(K.validate, r, e)[0] != 'ok':
+        return
+    a = call(K.weighted_score, r, e)
+    if a[0] != 'ok':
+        return
+    s = float(a[1])
+    if s not in (1.0, 0.5, 0.3, 0.2, 0.0):
+        ctx.add('C01', 'key.weighted_score', 'score in {1, 0.5, 0.3, 0.2, 0}', [r, e], s)
+    for x in (r, e):
+        b = call(K.weighted_score, x, str(x))
+        if b[0] == 'ok' and float(b[1]) != 1.0:
+            ctx.add('C02', 'key.weighted_score', 'perfect estimate: a key against a copy of itself scores 1', [x, x], float(b[1]))
+    if r.lower() == 'x' or e.lower() == 'x':
+        return
+    (rt, rm), (et, em) = r.split(), e.split()
+    sem = {k: v for k, v in K.KEY_TO_SEMITONE.items() if v is not None}
+    if rt.lower() not in sem or et.lower() not in sem:
+        return
+    for k in range(12):
+        for rt2 in [t for t, v in sem.items() if v == (sem[rt.lower()] + k) % 12]:
+            for et2 in [t for t, v in sem.items() if v == (sem[et.lower()] + k) % 12]:
+                for f in (str, str.upper, str.capitalize):
+                    r2, e2 = f(rt2) + ' ' + rm, f(et2) + ' ' + em
+                    c = call(K.weighted_score, r2, e2)
+                    if c[0] == 'ok' and float(c[1]) != s:
+                        rel = ('enharmonic respelling of the tonics leaves the key score unchanged' if k == 0 else
+                               'transposing reference and estimated key together leaves the key score unchanged')
+                        ctx.add('C09', 'key.weighted_score', rel, {'reference_key': r, 'estimated_key': e, 'transposed_reference': r2, 'transposed_estimate': e2,
+                                                                    'semitones': k}, {'orig': s, 'transposed': float(c[1])})
+
+
+# ======================================================================================================================
 # dispatcher
 # ======================================================================================================================
 LAST = None
@@ -771,9 +1110,52 @@ def _u_multipitch_metrics(ctx, case, impl):
     _guard(ctx, probe_multipitch, _mp_subject(case))
 
 
+def _u_event_metrics(ctx, case, impl):
+    k = case['kind']
+    if k in ('beat', 'onset'):
+        _guard(ctx, probe_events, k, [x / 64.0 for x in case['ref']], [x / 64.0 for x in case['est']], case['w'][0] / case['w'][1])
+        return
+    den = float(case['den'])
+    ref = [[a / den, b / den] for a, b in case['ref']]
+    est = [[a / den, b / den] for a, b in case['est']]
+    if k == 'det':
+        kind = 'detection_trim' if case['trim'] else 'detection'
+        _guard(ctx, probe_events, kind, ref, est, case['w'][0] / case['w'][1], case['beta'][0] / case['beta'][1])
+    _guard(ctx, probe_deviation, ref, est, bool(case['trim']))
+
+
+def _u_match_events(ctx, case, impl):
+    from harness.units.match_events import DEN
+    _guard(ctx, probe_match_events, [k / DEN for k in case['ref']], [k / DEN for k in case['est']], case['w'][0] / case['w'][1], case['wm'][0] / case['wm'][1])
+
+
+def _u_beat_q(ctx, case, impl):
+    _guard(ctx, probe_beat, [float(x) for x in case['ref']], [float(x) for x in case['est']], case)
+
+
+def _u_tempo_detection(ctx, case, impl):
+    from harness.units.tempo_detection import dec
+    ref, w, est, tol = case
+    _guard(ctx, probe_tempo, [dec(x) for x in ref], w, [dec(x) for x in est], tol)
+
+
+def _u_chord_cmp(ctx, case, impl):
+    _guard(ctx, probe_chord_pair, case[0], case[1])
+
+
+def _u_key_score(ctx, case, impl):
+    _guard(ctx, probe_key_pair, case[0], case[1])
+
+
 UNITS = {
+    'beat_q': _u_beat_q,
+    'chord_cmp': _u_chord_cmp,
+    'event_metrics': _u_event_metrics,
+    'key_score': _u_key_score,
+    'match_events': _u_match_events,
     'multipitch_metrics': _u_multipitch_metrics,
     'note_matching': _u_note_matching,
+    'tempo_detection': _u_tempo_detection,
     'transcription_scores': _u_transcription_scores,
 }
 
